@@ -261,6 +261,13 @@ func (c *Conn) Peek() []byte {
 	return append([]byte{}, c.out...)
 }
 
+// HasOutput reports whether lal has written bytes that were not taken yet.
+func (c *Conn) HasOutput() bool {
+	c.w.mu.Lock()
+	defer c.w.mu.Unlock()
+	return len(c.out) > 0
+}
+
 // Closed reports whether lal closed the connection.
 func (c *Conn) Closed() bool {
 	c.w.mu.Lock()
